@@ -53,6 +53,7 @@ class Bus:
         self.serial = {}      # client -> next serial
         self.spin = False
         self.config = None
+        self.rawmode = set()  # clients still in the SASL phase: their bytes are handed over unparsed
 
     # -- lifecycle ------------------------------------------------------
     def reset(self, config_xml, seed=None):
@@ -73,6 +74,7 @@ class Bus:
         self.pending.clear()
         self.names.clear()
         self.serial.clear()
+        self.rawmode.clear()
         self.spin = False
 
     def close(self):
@@ -124,7 +126,7 @@ class Bus:
                 val = val[:-4]
             data = self.pending.get(c, b'') + bytes.fromhex(val)
             rv.raw = data
-            if raw:
+            if raw or c in self.rawmode:
                 self.pending[c] = b''
                 continue
             msgs, status = R.split_stream(data, fds_available=1 << 30)
